@@ -246,6 +246,9 @@ type Resp struct {
 // MarshalJSON writes only the fields the judge reads for this kind of response.
 func (r *Resp) MarshalJSON() ([]byte, error) {
 	m := map[string]interface{}{"err": r.Err}
+	if r.Err == "crash" && r.Msg != "" {
+		m["msg"] = r.Msg // why the call counts as crashed (panic value, or the state of the goroutine that never returned)
+	}
 	if r.Fired != nil {
 		m["fired"] = r.Fired
 	}
